@@ -194,6 +194,8 @@ type StructSpec struct {
 	// (a structure update elaborates to the constructor applied to every projection of `c`, so unfolding a
 	// definition copies `c` once per field; the setter keeps one copy)
 	Setters bool
+	// External: a struct of another module (e.g. net/url.URL): the fields are taken from the configuration as they are
+	External bool
 	Fields []FieldSpec
 	Extra  []string // extra Lean fields "name : Type := default"
 }
@@ -526,6 +528,16 @@ func (g *gen) goT(ty types.Type) T {
 	if o, ok := g.opaque[types.TypeString(ty, func(p *types.Package) string { return p.Name() })]; ok {
 		return o
 	}
+	if u, ok := ty.(*types.Slice); ok {
+		// a slice of anything that has a Lean type (only reached when the slice type itself is not configured)
+		if et := g.goT(u.Elem()); et.Kind != "bad" && et.Kind != "" {
+			el := et.Lean
+			if strings.ContainsAny(el, " ") && !strings.HasPrefix(el, "(") {
+				el = "(" + el + ")"
+			}
+			return T{"opaque", "List " + el}
+		}
+	}
 	return tBad
 }
 
@@ -740,8 +752,17 @@ func (t *tr) call(c *ast.CallExpr, stmt bool) ([]string, []T) {
 			}
 			t.fail(c, "string(%s)", at.Kind)
 		case "append":
+			if len(c.Args) > 2 && !c.Ellipsis.IsValid() {
+				a, at := t.expr(c.Args[0])
+				var els []string
+				for _, e := range c.Args[1:] {
+					v, _ := t.expr(e)
+					els = append(els, v)
+				}
+				return []string{"(" + a + " ++ [" + strings.Join(els, ", ") + "])"}, []T{at}
+			}
 			if len(c.Args) != 2 {
-				t.fail(c, "append with other than one element")
+				t.fail(c, "append without an element")
 			}
 			a, at := t.expr(c.Args[0])
 			b, _ := t.expr(c.Args[1])
@@ -753,6 +774,12 @@ func (t *tr) call(c *ast.CallExpr, stmt bool) ([]string, []T) {
 				return []string{"(" + a + " ++ (" + b + ").toList)"}, []T{at}
 			}
 			return []string{"(" + a + " ++ [" + b + "])"}, []T{at}
+		case "new":
+			ty := t.g.goT(t.typeOf(c))
+			if ty.Kind != "struct" {
+				t.fail(c, "new of %s", ty.Lean)
+			}
+			return []string{"(default : " + ty.Lean + ")"}, []T{ty}
 		case "make":
 			if ext := t.findExt("make(" + t.p.text(c.Args[0]) + ")"); ext != nil {
 				return []string{ext.Value}, []T{ext.T}
@@ -954,6 +981,12 @@ func (t *tr) libCall(c *ast.CallExpr, callee string) (string, T, bool) {
 			f = "Bytes.trimRightByte"
 		}
 		return "(" + f + " " + b + " " + arg(0) + ")", tStr, true
+	case "strings.SplitN":
+		b, ok := t.singleByte(c.Args[1])
+		if k, okk := t.p.info.Types[c.Args[2]]; !ok || !okk || k.Value == nil || k.Value.ExactString() != "2" {
+			t.fail(c, "strings.SplitN other than (s, \"<one ASCII byte>\", 2)")
+		}
+		return "(GoRt.splitN2 " + arg(0) + " " + b + ")", tStrList, true
 	case "strings.Contains":
 		return "(GoRt.contains " + arg(0) + " " + arg(1) + ")", tBool, true
 	case "strings.IndexByte":
@@ -1858,10 +1891,37 @@ func (t *tr) rangeStmt(x *ast.RangeStmt) {
 	coll, ct := t.expr(x.X)
 	if _, isMap := t.typeOf(x.X).Underlying().(*types.Map); isMap {
 		// a Go map represented as the list of its keys: `for k := range m` visits them in an unspecified order
-		if t.spec.MapOrder == "" || x.Value != nil || x.Key == nil {
+		if t.spec.MapOrder == "" || x.Key == nil {
 			t.fail(x, "range over a map")
 		}
 		coll = "(" + t.spec.MapOrder + " " + coll + ")"
+		if x.Value != nil {
+			// a map represented as the list of its (key, value) pairs
+			m := t.typeOf(x.X).Underlying().(*types.Map)
+			kid, ok1 := x.Key.(*ast.Ident)
+			vid, ok2 := x.Value.(*ast.Ident)
+			if !ok1 || !ok2 || !strings.HasPrefix(ct.Lean, "List (") {
+				t.fail(x, "range over a map with key and value")
+			}
+			t.push()
+			it := t.fresh()
+			t.emit("for %s in %s do", it, coll)
+			t.ind++
+			if kid.Name != "_" {
+				kv := t.declareT(kid.Name, t.g.goT(m.Key()).Lean)
+				t.emit("let mut %s : %s := %s.1", kv, t.g.goT(m.Key()).Lean, it)
+			}
+			if vid.Name != "_" {
+				vv := t.declareT(vid.Name, t.g.goT(m.Elem()).Lean)
+				t.emit("let mut %s : %s := %s.2", vv, t.g.goT(m.Elem()).Lean, it)
+			}
+			t.inRange++
+			t.block(x.Body.List)
+			t.inRange--
+			t.ind--
+			t.pop()
+			return
+		}
 		x = &ast.RangeStmt{For: x.For, Key: nil, Value: x.Key, Tok: x.Tok, X: x.X, Body: x.Body}
 	}
 	elemT := tBad
@@ -2273,10 +2333,18 @@ func (g *gen) pkg(rel string) *pkgInfo {
 func (g *gen) emitStructs() {
 	for i := range g.structs {
 		ss := &g.structs[i]
-		p := g.pkg(ss.Pkg)
-		st := p.findStruct(ss.Go)
+		var p *pkgInfo
+		var st *ast.StructType
+		if !ss.External {
+			p = g.pkg(ss.Pkg)
+			st = p.findStruct(ss.Go)
+		}
 		fmt.Fprintf(&g.out, "/-- Go `%s` (modelled fields only) -/\nstructure %s %s where\n", ss.Go, ss.Lean, ss.Params)
 		for _, f := range ss.Fields {
+			if ss.External {
+				fmt.Fprintf(&g.out, "  %s : %s\n", f.Lean, f.T.Lean)
+				continue
+			}
 			got := "<missing>"
 			if st != nil {
 				for _, fl := range st.Fields.List {
